@@ -247,6 +247,7 @@ def configs(tier):
     for layout in ("3d", "dataset", "list", "multiindex", "stacked-sample", "stacked-sample-ym"):
         add("h_single", f"EOF|{layout}|netcdf-attrs", cls="EOF", layout=layout, p=4 if layout in ("3d", "dataset", "list") else 2, codec="netcdf-attrs")
         add("h_single", f"EOF|{layout}|json", cls="EOF", layout=layout, p=4 if layout in ("3d", "dataset", "list") else 2, codec="json")
+    add("h_single", "EOF|list of 12 items|json", cls="EOF", layout="list12", p=2, codec="json")
     add("h_single", "EOF|2d|standardize|coslat-off|netcdf-attrs|after-transform", cls="EOF", codec="netcdf-attrs", flags={"standardize": True}, when="after-transform")
     add("h_single", "ComplexEOF|2d|netcdf-attrs", cls="ComplexEOF", codec="netcdf-attrs")
     add("h_single", "EOFRotator|2d|netcdf-attrs", cls="EOF", codec="netcdf-attrs", rot={"n_modes": 2, "power": 1})
